@@ -352,6 +352,19 @@ def r6(ctx, F, rule, sfx):
             a = [repr(x) for x in e.fargs]
             ok = a[0] == 'cell' and a[1] == s.Ktxt
             ctx.check(rule, '%s:record-built-for-accumulation-plane%s' % (which, sfx), ok, 'init(%s, %s)' % (a[0], a[1][-60:]), 'init(cell, tet.plane_idx)', where(e.body, e.line), key_extra='initargs')
+        # records created outside the tetrahedron loop (a second route through the same function, e.g. a per-face fast path): the second argument
+        # is a clipping-plane index by contract (FaceIntegral::init, right()/shift() of the record); a position in some other list is not
+        for e in [x for x in s.inits if not x.in_loop or x not in inits]:
+            if e in inits:
+                continue
+            a1 = repr(e.fargs[1])
+            if a1.endswith('.clipping_plane'):
+                continue
+            is_pos = a1.endswith(').0') and 'enumerate' in a1
+            if is_pos:
+                ctx.bad(rule, '%s:record-built-for-a-plane-index%s' % (which, sfx), 'init(cell, %s)' % a1[-70:], 'a clipping-plane index (the position of a face in the compacted face list is a different numbering)', where(e.body, e.line), key_extra='init-pos')
+            else:
+                raise AnalysisIncomplete('%s: a face record is created outside the tetrahedron loop for %s' % (which, a1[-80:]))
         for e in s.collects:
             a = [repr(x) for x in e.fargs]
             t = repr(s.tet)
